@@ -196,8 +196,48 @@ var c01Endings = []string{"close", "close", "close", "reset", "halfclose", "sile
 
 func genC01(seed uint64, idx int, tier string) *Scenario {
 	r := NewRng(seed, "c01")
+	if os.Getenv("VERIF_RACE") != "" {
+		return genC01Race(r, idx)
+	}
 	sc := buildHostileScenario(r, idx, 4, c01Endings)
 	sc.DrainMs = 65000
+	return sc
+}
+
+// genC01Race: the race-detector tier.  One service instance, 2-4 connections carrying well-formed dialogues
+// (so that the handlers get deep into their state), and a schedule in which most steps release several
+// deliveries before the system runs to quiescence: handlers of one step are unordered by happens-before, and
+// the race detector (vector clocks, GOMAXPROCS=1) reports conflicting accesses.  Only map-vs-map races count.
+func genC01Race(r *Rng, idx int) *Scenario {
+	sc := buildHostileScenario(r, idx, 4, []string{"close", "close", "never"})
+	// keep the first service only, with at least two connections to it
+	first := ""
+	var actors []Actor
+	for _, a := range sc.Actors {
+		if first == "" {
+			first = a.Svc
+		}
+		if a.Svc == first {
+			actors = append(actors, a)
+		}
+	}
+	for len(actors) < 2 {
+		b := actors[0]
+		b.Src = clientAddr(len(actors) + 7)
+		b.Ops = append([]Op(nil), b.Ops...)
+		actors = append(actors, b)
+	}
+	sc.Actors = actors
+	sc.Schedule = r.Schedule(300)
+	for i := range sc.Schedule {
+		if r.Chance(0.7) {
+			sc.Schedule[i] |= 1<<16 | r.Intn(4)<<17
+		}
+	}
+	sc.Params["batch"] = true
+	sc.Params["race"] = true
+	sc.Class = "race/" + first
+	sc.DrainMs = 35000
 	return sc
 }
 
